@@ -10,6 +10,7 @@ from . import theory as T
 from .values import *  # noqa
 from .symex import PyRaise, ReturnSig, Env
 
+T.assume("dep.dir", "dir(cls) is the duplicate-free list of attribute names of the class and its bases")
 T.assume("dep.deepcopy", "copy.deepcopy(v) is observationally v (and does not raise for JSON-like values)")
 T.assume("dep.functools.partial", "functools.partial(f, *a, **k)(*b, **l) = f(*a, *b, **{**k, **l})")
 T.assume("dep.json", "json.dumps(x).encode() is a deterministic, seed-independent, injective function of the ordered JSON tree x")
@@ -235,8 +236,23 @@ class ModelMixin:
             return self.fork(z3.Function("hasattr!" + name, T.Val, T.B)(obj.term))
         raise Unsupported(f"hasattr on {obj!r}")
 
+    def b_dir(self, a, k):
+        """dir(obj): the duplicate-free list of attribute names of the object, its class and the bases (assumed contract dep.dir)"""
+        t = self.as_ev(a[0])
+        n = z3.Function("dir#n", T.Ev, T.I)(t)
+        at = z3.Function("dir#at", T.Ev, T.I, T.Val)
+        self.define(n >= 0)
+        i = self.bound("i", T.I)
+        self.define(z3.ForAll([i], T.isstr(at(t, i)), patterns=[at(t, i)]))
+        return SeqV(n, lambda i: Sym("val", at(t, i)))
+
     def b_getattr(self, a, k):
         obj, name = a[0], a[1]
+        if isinstance(name, Sym):
+            # attribute of an object under a symbolic name (dataset classes walk dir(cls)): an uninterpreted member table
+            t = self.as_ev(obj)
+            self.event("getattr", t, self.as_val(name))
+            return Sym("val", z3.Function("member", T.Ev, T.Val, T.Val)(t, self.as_val(name)))
         if not isinstance(name, str):
             raise Unsupported("getattr with symbolic name")
         if len(a) > 2:
@@ -245,6 +261,9 @@ class ModelMixin:
 
     def b_setattr(self, a, k):
         obj, name, v = a
+        if isinstance(name, Sym):
+            self.event("setattr", self.as_ev(obj), self.as_val(name), self.as_val(v))
+            return None
         if not isinstance(name, str):
             raise Unsupported("setattr with symbolic name")
         self.setattr(obj, name, v)
@@ -487,6 +506,8 @@ class ModelMixin:
 
     def b_confectioner_templating_set_dotted_key(self, a, k):
         key, v, target = a
+        if isinstance(target, PyDict):
+            self.check_mut(target)
         if isinstance(target, PyDict) and not target.items:
             target.items["__single__"] = (self.as_key(key), self.as_val(v))
             return None
@@ -566,6 +587,7 @@ class ModelMixin:
                     raise Unsupported("symbolic get on concrete dict")
                 return recv.items.get(self.hashable(kk), args[1] if len(args) > 1 else None)
             if meth == "setdefault":
+                self.check_mut(recv)
                 return recv.items.setdefault(self.hashable(args[0]), args[1])
             if meth == "update":
                 if isinstance(args[0], PyDict):
@@ -592,6 +614,7 @@ class ModelMixin:
             pass
         if isinstance(recv, PyList):
             if meth == "append":
+                self.check_mut(recv)
                 recv.items.append(args[0])
                 return None
             if meth == "copy":
@@ -610,7 +633,7 @@ class ModelMixin:
                 return recv.startswith(args[0])
             if meth == "startswith":
                 p = args[0]
-                return Sym("bool", z3.Function("startswith!" + str(p), T.Key, T.B)(self.as_key(recv)))
+                return Sym("bool", z3.Function("startswith!" + str(p), T.Val, T.B)(self.as_val(recv)))
             if meth in ("strip", "splitlines", "join", "format"):
                 return Sym("val", self.fresh("str", T.Val))
         if isinstance(recv, JsonText) and meth == "encode":
